@@ -5,7 +5,7 @@ prove (coq/Properties_C07.v) -> build (lib_interp + unit harness from the CURREN
 schedule controller -> every trace replayed through the extracted model (per join counter object)
 -> independent oracle of the property on the trace.
 """
-import json, os, re
+import json, os, re, shutil
 import vlib, trace
 
 VF = ["JoinCounter/JcModel.v", "JoinCounter/JcProofs.v", "JoinCounter/JcInv.v", "JoinCounter/JcTheorems.v"]
@@ -20,8 +20,36 @@ DERIVED = ["wakemany.spin", "wait.cas.fail", "wait.cas.fail.then.N", "dec.cas.fa
 # ------------------------------------------------------------------------------------------
 # build
 # ------------------------------------------------------------------------------------------
+def private_copy(ctx, exe):
+    """trace.build_interp() keeps only the newest few binaries in the shared build/li cache; other checks
+    building concurrently may prune ours in the middle of a long run: execute a copy in our own directory"""
+    d = os.path.join(ctx.dir, "bin")
+    os.makedirs(d, exist_ok=True)
+    mine = os.path.join(d, os.path.basename(exe))
+    with vlib.Lock("c07-bin"):
+        if not os.path.exists(mine):
+            tmp = mine + ".tmp%d" % os.getpid()
+            shutil.copy2(exe, tmp)
+            os.rename(tmp, mine)
+        olds = sorted((os.path.getmtime(os.path.join(d, f)), f) for f in os.listdir(d) if f != os.path.basename(mine))
+        for _, f in olds[:-3]:
+            try:
+                os.remove(os.path.join(d, f))
+            except OSError:
+                pass
+    return mine
+
+
 def build(ctx):
-    exe = trace.build_interp()
+    exe = None
+    for _ in range(3):                      # the shared binary can vanish between build and copy
+        try:
+            exe = private_copy(ctx, trace.build_interp())
+            break
+        except OSError:
+            exe = None
+    if exe is None:
+        raise vlib.BuildError("lib_interp binary kept disappearing from the shared cache")
     lib = vlib.build_lib()
     unit = vlib.cc(os.path.join(ctx.dir, "c07_unit"), [os.path.join(vlib.VERIF, "harness", "c07_unit.c")],
                    flags=vlib.lib_cflags() + ["-O0", "-g"], libs=[lib, "-lpthread", "-ldl", "-lrt"])
